@@ -8,7 +8,7 @@
    theorems that use it carry the suffix _ideal. *)
 From Coq Require Import ZArith List Bool String.
 From TV Require Import Base.Prelude Model.C04_Tamper Model.C04_Toy Model.C04_SitesExpected Gen.C04_Sites
-                       Proofs.C04_Tamper Proofs.C04_Toy Proofs.C04_Examples Proofs.C04_Sites.
+                       Proofs.C04_Tamper Proofs.C04_Hrr Proofs.C04_Toy Proofs.C04_Examples Proofs.C04_Sites.
 Import ListNotations.
 Open Scope Z_scope.
 
@@ -158,20 +158,14 @@ Proof. exact resumption_no_sentinel. Qed.
 (* ---- second ClientHello after HelloRetryRequest -------------------------------------------- *)
 (* the server goes on only if the second hello equals the first in everything outside the
    permitted differences (key_share, cookie, padding, pre_shared_key, early_data), and carries
-   exactly one share, of the requested group.
-   Full statement:  forall cookie group c1 c2, psk_is_last c1 = true ->
-       hrr_second_ok cookie group c1 c2 = true -> ch_fixed_part c1 = ch_fixed_part c2 /\ exists share, ...
-   Proved part: second hellos WITHOUT a pre_shared_key extension.  Missing: the branch in which the
-   code overwrites the last extension of the edited first hello with the new pre_shared_key
-   (`clientHello1.extensions[-1] = new_ext`); it needs the invariant "the last extension of the
-   edited copy is still pre_shared_key/cookie/padding", not yet proved.  (The branch is executed by
-   the live tls13-psk-hrr scenario of the correspondence.) *)
-Theorem hrr_second_hello_bound_partial : forall cookie group c1 c2,
-  find_ext X_PSK (ch_exts c2) = None ->
+   exactly one share, of the requested group.  psk_is_last c1 is the ClientHello sanity check
+   "PSK extension not last in client hello" (3618-3622), which the first hello has passed. *)
+Theorem hrr_second_hello_bound : forall cookie group c1 c2,
+  psk_is_last c1 = true ->
   hrr_second_ok cookie group c1 c2 = true ->
   ch_fixed_part c1 = ch_fixed_part c2 /\
   exists share, find_ext X_KEYSHARE (ch_exts c2) = Some [group; share].
-Proof. exact hrr_second_ok_fixed_nopsk. Qed.
+Proof. exact hrr_second_ok_fixed. Qed.
 
 (* ---- tie: the code's transcript / sentinel / SCSV / comparison sites are the modelled ones ---- *)
 Theorem transcript_sites_as_modelled :
